@@ -318,6 +318,10 @@ for i in (0,1,3,4,9,12):
     for mif in (2,4):
         c11.append(job(f"prog{i}-plain-mif{mif}",".","VH_Concurrent",["C11/"],{"program":i,"reenter":0,"preemptions":2,"maxInFlight":mif,"types":2},Q if mif==2 else T,no_native=True,
             bounds=f"threads {PROGS[i]}, maxInFlight={mif} (buffer not full: events stay buffered across the racing calls), at most 2 preemptions"))
+for i in (1,3,9):
+    for re_,rn in [(0,"plain"),(2,"reenter-close")]:
+        c11.append(job(f"prog{i}-{rn}-gaps",".","VH_Concurrent",["C11/"],{"program":i,"reenter":re_,"preemptions":2,"maxInFlight":2,"types":2,"nseq":3},Q if re_==0 or i==1 else T,no_native=True,
+            bounds=f"threads {PROGS[i]}, sequences in {{5,6,8}} (a gap: EventsLost fires, yields, and with reenter-close calls Close), maxInFlight=2, at most 2 preemptions"))
 C["C11"]={"jobs":c11,"assumptions":["goroutines are engine threads; a context switch is offered only at synchronisation operations (mutex lock/unlock, sync/atomic, thread start/exit, callback entry); between two such points a thread runs alone, which is sound for assertion violations provided the program is race free, and race freedom is checked on every explored schedule (vector clocks over mutex, atomic, start/join edges)",
    "context bound: schedules with at most the stated number of preemptions","constant clock, timeout far in the future","counterexamples are confirmed in the engine's concrete mode (a native run cannot be forced into a schedule)"],
    "outside":["weak-memory effects below Go's happens-before model","more threads/operations/preemptions than stated","the randomly scheduled long runs under the race detector mentioned in the quantifier (sampling; not built)"]}
@@ -377,6 +381,7 @@ c07.append(job("compare-alone","rule/flags","VH_RoundTrip",["C07/"],{"shape":0,"
 c07.append(job("compare-alone-S-key","rule/flags","VH_RoundTrip",["C07/"],{"shape":0,"field":0,"list":0,"compare":2,"maxkeys":1,"sysforms":3},T,expect=["C07/accepted-by-build"],bounds="as compare-alone x {no -S, -S name, -S number} x 0..1 key"))
 c07.append(job("compare-after-filter","rule/flags","VH_RoundTrip",["C07/"],{"shape":0,"field":0,"list":0,"digits":2,"compare":1,"maxkeys":0,"sysforms":1,"oneop":1},Q,expect=["C07/accepted-by-build"],bounds="pid filter followed by a -C comparison (25 pairs x both orders x 2 operators)"))
 c07.append(job("multikey","rule/flags","VH_RoundTrip",["C07/"],{"shape":0,"field":0,"list":0,"digits":2,"maxkeys":3,"sysforms":2,"oneop":1},Q,expect=["C07/accepted-by-build"],bounds="syscall rule with a pid filter and 0..3 keys of 1..2 plain bytes each (joined keys)"))
+c07.append(job("long-strings","rule/flags","VH_RoundTrip",["C07/"],{"shape":2},Q,expect=["C07/accepted-by-build"],alloc_cap=262144,loop_cap=20000,bounds="five rules whose strings are each within Build's limits (path/exe up to 4096, key up to 256) and together 4-5 kB of string buffer, last byte symbolic"))
 c07.append(job("watch","rule/flags","VH_RoundTrip",["C07/"],{"shape":1},Q,expect=["C07/accepted-by-build"],bounds="file watches on a file, a directory and a non-existing path (Stat stub) x 16 permission subsets x 0..1 key"))
 C["C07"]={"jobs":c07,"assumptions":RULE_ASSUME+PARSE_ASSUME[:2]+["string values contain no white space, quotes, backslashes or control characters (ToCommandLine does not quote)","resolveIds=false","watch-shaped rules use paths the Stat stub (and any Linux file system) classifies the same way in both Build calls"],
    "outside":["rules with more than two filters","other architectures","resolveIds=true"]}
